@@ -5,6 +5,10 @@ import LeptosModel.Proofs.ViewMount
 namespace Leptos.View
 open Leptos.Dom
 
+-- `R`: how the attribute list of an element relates to the fresh render's (`Eq` for the static
+-- fragment, lookup-equality `AttrsEq` where removal and re-insertion change the order)
+variable {R : List (String × String) → List (String × String) → Prop}
+
 /-- node `x` exists with this kind, data and parent -/
 def NodeIs (d : Dom) (x : Id) (k : Kind) (data : String) (par : Option Id) : Prop :=
   ∃ r, d.get? x = some r ∧ r.kind = k ∧ r.data = data ∧ r.parent = par
@@ -22,28 +26,28 @@ def AttrVal.initState : AttrVal → AttrState
   | .opsty n v => .opsty n v
 
 mutual
-/-- `Rep d v st par`: the retained state `st` is the state of view `v` in DOM `d`, its top-level
+/-- `Rep R d v st par`: the retained state `st` is the state of view `v` in DOM `d`, its top-level
 nodes hanging below `par` (`none` = built but not mounted): every text / placeholder / element
 node exists with the right kind, data and parent, element attributes are those of a fresh
 render, and the children of each element are exactly the roots of its child state, recursively. -/
-def Rep (d : Dom) : View → State → Option Id → Prop
+def Rep (R : List (String × String) → List (String × String) → Prop) (d : Dom) : View → State → Option Id → Prop
   | .text s, .text id s', par => s' = s ∧ NodeIs d id .text s par
   | .unit, .unit id, par => NodeIs d id .comment "" par
   | .elem tag as c, .elem id ass cs, par =>
-    ∃ r, d.get? id = some r ∧ r.kind = .elem tag ∧ r.parent = par ∧ r.attrs = renderAttrs as ∧
+    ∃ r, d.get? id = some r ∧ r.kind = .elem tag ∧ r.parent = par ∧ R r.attrs (renderAttrs as) ∧
       ass = as.map AttrVal.initState ∧
       (if isVoid tag then cs = none ∧ r.kids = []
-       else ∃ c', cs = some c' ∧ r.kids = c'.roots ∧ Rep d c c' (some id))
-  | .tuple vs, .tuple sts, par => RepList d vs sts par
+       else ∃ c', cs = some c' ∧ r.kids = c'.roots ∧ Rep R d c c' (some id))
+  | .tuple vs, .tuple sts, par => RepList R d vs sts par
   | .onone, .either i st, par => i = 1 ∧ ∃ id, st = .unit id ∧ NodeIs d id .comment "" par
-  | .osome v, .either i st, par => i = 0 ∧ Rep d v st par
-  | .either _ i v, .either j st, par => j = i ∧ Rep d v st par
-  | .vec vs, .vec sts mk, par => RepList d vs sts par ∧ NodeIs d mk .comment "" par
-  | .any ty v, .any ty' st, par => ty' = ty ∧ Rep d v st par
+  | .osome v, .either i st, par => i = 0 ∧ Rep R d v st par
+  | .either _ i v, .either j st, par => j = i ∧ Rep R d v st par
+  | .vec vs, .vec sts mk, par => RepList R d vs sts par ∧ NodeIs d mk .comment "" par
+  | .any ty v, .any ty' st, par => ty' = ty ∧ Rep R d v st par
   | _, _, _ => False
-def RepList (d : Dom) : List View → List State → Option Id → Prop
+def RepList (R : List (String × String) → List (String × String) → Prop) (d : Dom) : List View → List State → Option Id → Prop
   | [], [], _ => True
-  | v :: vs, s :: ss, par => Rep d v s par ∧ RepList d vs ss par
+  | v :: vs, s :: ss, par => Rep R d v s par ∧ RepList R d vs ss par
   | _, _, _ => False
 end
 
@@ -54,7 +58,7 @@ theorem NodeIs.congr {d d' : Dom} {x : Id} {k : Kind} {s : String} {par : Option
 mutual
 /-- `Rep` only looks at the nodes the state owns -/
 theorem Rep.congr {d d' : Dom} : ∀ (v : View) (st : State) (par : Option Id),
-    (∀ x ∈ owned st, d'.get? x = d.get? x) → Rep d v st par → Rep d' v st par
+    (∀ x ∈ owned st, d'.get? x = d.get? x) → Rep R d v st par → Rep R d' v st par
   | .text s, st, par, hf, h => by
     cases st <;> simp [Rep] at h ⊢
     exact ⟨h.1, h.2.congr (hf _ (by simp [owned]))⟩
@@ -95,7 +99,7 @@ theorem Rep.congr {d d' : Dom} : ∀ (v : View) (st : State) (par : Option Id),
     cases st <;> simp only [Rep] at h ⊢
     exact ⟨h.1, Rep.congr v _ par (by simpa [owned] using hf) h.2⟩
 theorem RepList.congr {d d' : Dom} : ∀ (vs : List View) (sts : List State) (par : Option Id),
-    (∀ x ∈ ownedList sts, d'.get? x = d.get? x) → RepList d vs sts par → RepList d' vs sts par
+    (∀ x ∈ ownedList sts, d'.get? x = d.get? x) → RepList R d vs sts par → RepList R d' vs sts par
   | [], sts, par, hf, h => by cases sts <;> simp [RepList] at h ⊢
   | v :: vs, sts, par, hf, h => by
     cases sts with
@@ -115,7 +119,7 @@ theorem nodup_app {l1 l2 : List Id} (h : (l1 ++ l2).Nodup) :
 mutual
 /-- the roots of a represented state hang below `par` -/
 theorem Rep.roots_parent {d : Dom} : ∀ (v : View) (st : State) (par : Option Id),
-    Rep d v st par → ∀ r ∈ st.roots, ∃ rr, d.get? r = some rr ∧ rr.parent = par
+    Rep R d v st par → ∀ r ∈ st.roots, ∃ rr, d.get? r = some rr ∧ rr.parent = par
   | .text s, st, par, h => by
     cases st <;> simp [Rep] at h
     obtain ⟨_, r, h1, _, _, h4⟩ := h
@@ -153,7 +157,7 @@ theorem Rep.roots_parent {d : Dom} : ∀ (v : View) (st : State) (par : Option I
     cases st <;> simp only [Rep] at h
     simpa [State.roots] using Rep.roots_parent v _ par h.2
 theorem RepList.roots_parent {d : Dom} : ∀ (vs : List View) (sts : List State) (par : Option Id),
-    RepList d vs sts par → ∀ r ∈ State.rootsList sts, ∃ rr, d.get? r = some rr ∧ rr.parent = par
+    RepList R d vs sts par → ∀ r ∈ State.rootsList sts, ∃ rr, d.get? r = some rr ∧ rr.parent = par
   | [], sts, par, h => by cases sts <;> simp [RepList, State.rootsList] at h ⊢
   | v :: vs, sts, par, h => by
     cases sts with
@@ -177,7 +181,7 @@ theorem Rep.reparent {d d' : Dom} : ∀ (v : View) (st : State) (par par' : Opti
     (owned st).Nodup →
     (∀ x ∈ owned st, x ∉ st.roots → d'.get? x = d.get? x) →
     (∀ r ∈ st.roots, ∀ rr, d.get? r = some rr → d'.get? r = some { rr with parent := par' }) →
-    Rep d v st par → Rep d' v st par'
+    Rep R d v st par → Rep R d' v st par'
   | .text s, st, par, par', hn, hf, hr, h => by
     cases st <;> simp [Rep] at h ⊢
     exact ⟨h.1, h.2.reparent (hr _ (by simp [State.roots]))⟩
@@ -234,7 +238,7 @@ theorem RepList.reparent {d d' : Dom} : ∀ (vs : List View) (sts : List State) 
     (ownedList sts).Nodup →
     (∀ x ∈ ownedList sts, x ∉ State.rootsList sts → d'.get? x = d.get? x) →
     (∀ r ∈ State.rootsList sts, ∀ rr, d.get? r = some rr → d'.get? r = some { rr with parent := par' }) →
-    RepList d vs sts par → RepList d' vs sts par'
+    RepList R d vs sts par → RepList R d' vs sts par'
   | [], sts, par, par', hn, hf, hr, h => by cases sts <;> simp [RepList] at h ⊢
   | v :: vs, sts, par, par', hn, hf, hr, h => by
     cases sts with
